@@ -223,8 +223,28 @@ def dump(tok, symidx=None) -> str:
     return '(?' + s + ''.join(' ' + dump(x) for x in tok) + ')'
 
 
+LEAKS: list = []      # (version, source) after which the parser object was left in a modified state
+
+
+def state_check(ver: str, src: str, p) -> None:
+    """a parse, successful or not, must leave the (cached, reused) parser object as it was: `parse_arguments` is the
+    one flag the syntactic phase toggles.  A leak is recorded once and repaired so that later cases are not affected."""
+    if getattr(p, 'parse_arguments', True) is not True:
+        LEAKS.append((ver, src))
+        p.parse_arguments = True
+
+
 def impl_parse(ver: str, src: str, **options):
     """returns (canonical dump or ERR:.., token or None)"""
+    from elementpath.exceptions import ElementPathError
+    from elementpath.tdop import Parser as TdopParser
+    try:
+        return impl_parse_(ver, src, **options)
+    finally:
+        state_check(ver, src, parser(ver, **options))
+
+
+def impl_parse_(ver: str, src: str, **options):
     from elementpath.exceptions import ElementPathError
     from elementpath.tdop import Parser as TdopParser
     try:
@@ -976,14 +996,15 @@ def gen_tree(rng, V: VInfo, size: int):
     if size <= 0:
         return gen_atom(rng, V)
     r = rng.random()
-    if r < 0.62 and V.infix:
+    arrow_r = bool(V.arrow and V.group) and (0.57 <= r < 0.62 or 0.72 <= r < 0.74)   # 3.1: 10% arrows
+    if r < 0.62 and V.infix and not arrow_r:
         o = rng.choice(V.infix)
         ls = rng.randrange(size)
         if V.sym[o] == '?' and rng.random() < 0.8:
             k = rng.choice([0, 1, 1, 7, 6])
             return ('b', o, gen_tree(rng, V, size - 1), ('a', k, rng.choice(atom_ids(V.ver, k))))
         return ('b', o, gen_tree(rng, V, ls), gen_tree(rng, V, size - 1 - ls))
-    if r < 0.74 and V.prefix:
+    if r < 0.74 and V.prefix and not arrow_r:
         p = rng.choice(V.prefix)
         if V.sym[p] == '?' and rng.random() < 0.85:
             # unary lookup: mostly with a KeySpecifier (name, integer, keyword name, `*`, parenthesised expression)
@@ -993,7 +1014,7 @@ def gen_tree(rng, V: VInfo, size: int):
             k = rng.choice([0, 1, 1, 7, 6])
             return ('p', p, ('a', k, rng.choice(atom_ids(V.ver, k))))
         return ('p', p, gen_tree(rng, V, size - 1))
-    if r < 0.80 and V.typed and size >= 2:
+    if r < 0.80 and V.typed and size >= 2 and not arrow_r:
         # a typed expression directly followed by `*`, `+` (or `?` in 3.1): the occurrence-indicator cases
         o = rng.choice(V.typed)
         n = rng.choice(type_ids(V.ver, V.sym[o]))
@@ -1005,11 +1026,11 @@ def gen_tree(rng, V: VInfo, size: int):
             return ('b', f, ('b', V.idx[rng.choice(follow)], left, gen_atom(rng, V)), gen_atom(rng, V)) \
                 if rng.random() < 0.3 else ('occ2', f, left, gen_atom(rng, V))
         return ('b', f, left, gen_atom(rng, V))
-    if r < 0.84 and V.typed and not (V.arrow and r >= 0.82):
+    if r < 0.84 and V.typed and not (V.arrow and r >= 0.81) and not arrow_r:
         o = rng.choice(V.typed)
         n = rng.choice(type_ids(V.ver, V.sym[o]))
         return ('t', o, gen_tree(rng, V, size - 1), n)
-    if r < 0.84 and V.arrow and V.group:
+    if V.arrow and V.group and (0.81 <= r < 0.84 or 0.57 <= r < 0.62 or 0.72 <= r < 0.74):
         # arrow: `l => f ( args )`, f a name / variable / prefixed name / parenthesised expression; sometimes the lax
         # forms the led accepts (a lookup on the specifier, a second argument list)
         o = rng.choice(V.arrow)
@@ -1132,14 +1153,15 @@ def out_of_fragment_(V: VInfo, toks: list) -> str | None:
         if a[0] == 't' and b[0] == 'o' and c is not None and c[0] == 'o' and V.sym[b[1]] == '?' and V.sym[c[1]] == '?' \
                 and V.ver.startswith('31'):
             return 'lookup-after-type'
-    for a, b in zip(toks, toks[1:]):
+    for i, (a, b) in enumerate(zip(toks, toks[1:])):
+        after_arrow = i > 0 and toks[i - 1][0] == 'o' and toks[i - 1][1] in V.arrow
         if a[0] == 't' and b[0] == 'o' and V.sym[b[1]] == '?' and (a[1] % 4 != 0 or a[1] // 4 == 0):
             return 'lookup-after-type'               # `T? ? k`: outside the EBNF; accepted or not depending on the kind of type
         if a[0] == 't' and b[0] == 'a' and b[1] in (6, 7):
             return 'operator-spelling-after-type'    # `T? eq`, `T+ *`: the atom's text is an operator in this position
         if a[0] == 't' and (b[0] == 'o' and V.sym[b[1]] == '(' or b[0] == 'a' and b[1] == 11):
             return 'type-followed-by-parenthesis'    # `xs:string (` is tokenised as a constructor call
-        if b[0] == 'o' and V.sym[b[1]] == '(' and a[0] == 'a' and a[1] != 2:
+        if b[0] == 'o' and V.sym[b[1]] == '(' and a[0] == 'a' and a[1] != 2 and not (after_arrow and a[1] in (0, 8)):
             return 'static-call-or-literal-call'     # `n1(..)` is a static FunctionCall (XPST0017), `1(..)` XPTY0004
         if a[0] == 'o' and V.sym[a[1]] == '?' and b[0] == 'a' and b[1] in (8, 9, 10, 11):
             return 'lookup-key-not-ncname'           # 3.1 [54] KeySpecifier is an NCName / integer / parenthesised expr
@@ -1238,7 +1260,7 @@ def compare_tokens(run: Run, cases: list[tuple[str, list]], origin: str = 'gen')
                 run.disagree(Disagreement(dict(case, real_source=real_src), real_src, a['src'], what='source-text-model',
                                           site='XPathToken.source'))
         if tok is not None:
-            roundtrip(run, ver, src, tok, impl)
+            roundtrip(run, ver, src, tok, impl, extra=[f for f in a['trig'] if f == 'F04o'])
 
 
 # ------------------------------------------------------------------- (ii) source round trip
@@ -1528,7 +1550,10 @@ def hashseed_worker() -> None:
         try:
             from elementpath.exceptions import ElementPathError
             try:
-                t2 = parser(v).parse(src)
+                try:
+                    t2 = parser(v).parse(src)
+                finally:
+                    state_check(v, src, parser(v))
                 full = t2.tree + ' | ' + t2.source
             except ElementPathError as e:
                 full = 'ERR:' + (getattr(e, 'code', None) or 'none').split(':')[-1]
@@ -1958,6 +1983,29 @@ def correspond(run: Run) -> None:
     alternatives_pass(run)
     hashseed_pass(run)
     permutation_pass(run)
+    state_pass(run)
+
+
+def trig_f04n(src: str) -> bool:
+    """trigger of finding F04n: the source has an arrow operator (whose function specifier fails to parse)"""
+    return '=>' in src
+
+
+def state_pass(run: Run) -> None:
+    """no parse may leave the parser object modified (checked after every parse of the run, see `state_check`)"""
+    for v in ALL_VERSIONS:
+        if base_of(v) == '31':
+            impl_parse(v, 'n1 => n2 +')         # witness: a syntax error inside the function specifier
+            impl_parse(v, 'n1 => ( n2 + ) ( )')
+    seen = set()
+    run.stats.count('parser-state-checked')
+    for v, src in LEAKS:
+        if (v, src) in seen or len(seen) >= 25:
+            continue
+        seen.add((v, src))
+        run.disagree(Disagreement({'version': v, 'source': src}, 'parse_arguments=False', None, 'parse_arguments=True',
+                                  what='parser-state-after-parse', site='led__arrow_operator',
+                                  tags=['F04n'] if trig_f04n(src) else []))
 
 
 # constructs outside the abstract alphabet whose grouping is fixed by the EBNF: (first version, source, tree
@@ -2054,7 +2102,10 @@ def full_parse_tree(ver: str, src: str, **options) -> str:
     from elementpath.exceptions import ElementPathError
     from elementpath.tdop import Parser as TdopParser
     try:
-        return TdopParser.parse(parser(ver, **options), src).tree
+        try:
+            return TdopParser.parse(parser(ver, **options), src).tree
+        finally:
+            state_check(ver, src, parser(ver, **options))
     except ElementPathError as e:
         return 'ERR:' + (getattr(e, 'code', None) or 'none').split(':')[-1]
     except RecursionError:
